@@ -3360,6 +3360,10 @@ impl LineBuf {
 			Verb::Delete |
 			Verb::Yank |
 			Verb::Change => {
+				if let MotionKind::Null = &motion {
+					// The motion failed or the address was invalid: text and register stay as they are
+					return Ok(())
+				}
 				if let MotionKind::Line(last) | MotionKind::LineRange(_,last) = &motion {
 					if *last >= self.line_count() {
 						// An ex range that reaches past the last line is invalid: text and register stay as they are
